@@ -159,6 +159,7 @@ def run_shard(ctx):
   for s in strings:
     run_string(ctx, s, watch, thorough)
   flag_cases(ctx, watch)
+  flag_graphs(ctx, watch, 400 if thorough else 40)
   ctx.count('expansion_passes_observed', watch['max_passes'])
   ctx.count('StrLiteral_calls', sum(seen.values()))
   for d, n in seen.items():
@@ -340,10 +341,94 @@ def flag_cases(ctx, watch):
                     {'flag_case': name, 'program': text, 'flags': flags, 'observed': out.brief()})
 
 
+FLAG_NAMES = ['a', 'b', 'root', 'dir', 'path', 'n', 'limit', 'zz', 'f1', 'f2']
+FLAG_PIECES = ['', '/', 'data', '2024', '.csv', '_', '-', 'x y', '7', 'events', '<', '>', '?']
+
+
+def flag_graph_case(rng, exhaustive_order=None):
+  """A random acyclic flag graph: values mention flags defined anywhere in the program (before or after), some flags are
+  unused, some get user values (which may mention flags too). Returns (program text, user flags, {site: expected string})."""
+  n = rng.choice([2, 3, 3, 4, 4, 5, 6])
+  names = rng.sample(FLAG_NAMES, n)
+  # topological rank: a flag may only mention flags of higher rank (acyclic by construction)
+  rank = list(names)
+  rng.shuffle(rank)
+  defaults = {}
+  for i, f in enumerate(rank):
+    later = rank[i + 1:]
+    parts = [rng.choice(FLAG_PIECES)]
+    if later and rng.random() < 0.75:
+      for _ in range(rng.choice([1, 1, 2])):
+        parts.append('${%s}' % rng.choice(later[:2] if rng.random() < 0.7 else later))     # mostly the next ones: long chains
+        parts.append(rng.choice(FLAG_PIECES))
+    defaults[f] = ''.join(parts)
+  user = {}
+  for f in names:
+    if rng.random() < 0.25:
+      later = rank[rank.index(f) + 1:]
+      v = rng.choice(FLAG_PIECES) + 'U'
+      if later and rng.random() < 0.4:
+        v += '${%s}' % rng.choice(later)
+      user[f] = v
+  order = list(names)
+  if exhaustive_order is not None:
+    order = [names[i] for i in exhaustive_order if i < len(names)] + [x for j, x in enumerate(names) if j not in exhaustive_order]
+  else:
+    rng.shuffle(order)
+  merged = dict(defaults, **user)
+  lines = ['@Engine("sqlite");'] + ['@DefineFlag("%s", "%s");' % (f, defaults[f]) for f in order]
+  used = rng.sample(names, rng.choice([1, 1, 2]))
+  expected = {}
+  for k, f in enumerate(used):
+    if rng.random() < 0.5:
+      lines.append('T%d(FlagValue("%s"));' % (k, f))
+      expected['T%d' % k] = expected_after_expansion(merged[f], merged)
+    else:
+      lines.append('T%d("pre ${%s} post");' % (k, f))
+      expected['T%d' % k] = expected_after_expansion('pre ${%s} post' % f, merged)
+  chain = 0
+  for f in names:
+    d, cur = 0, merged[f]
+    while DOLLAR.search(cur) and d < 8:
+      t = cur
+      for k2, v in merged.items():
+        t = t.replace('${%s}' % k2, v, 1) if ('${%s}' % k2) in t else t
+      if t == cur:
+        break
+      cur = t
+      d += 1
+    chain = max(chain, d)
+  return '\n'.join(lines) + '\n', user, expected, {'n_flags': n, 'chain': chain, 'unused': n - len(set(used)), 'user': len(user)}
+
+
+def flag_graphs(ctx, watch, n_cases):
+  """Generated flag graphs against the documented substitution (reference: expected_after_expansion)."""
+  import itertools
+  perms = list(itertools.permutations(range(4)))
+  for i in range(n_cases):
+    rng = random.Random(ctx.rng.randrange(1 << 48))
+    text, user, expected, feats = flag_graph_case(rng, exhaustive_order=perms[i % len(perms)] if i % 2 else None)
+    ctx.journal({'flag_graph': i, 'program': text, 'flags': user})
+    watch['bound'] = 64 * len(text) + (1 << 20)
+    ctx.count('flag_graph_cases')
+    ctx.count('flag_graph_chain_ge3', 1 if feats['chain'] >= 3 else 0)
+    ctx.count('flag_graph_with_unused', 1 if feats['unused'] else 0)
+    for pred, want in expected.items():
+      out = pipeline.run(text, pred, user_flags=dict(user))
+      ok = want is not None and out.kind == 'rows' and out.rows == [[want]]
+      ctx.case(stable_hash(['flaggraph', text, sorted(user.items()), pred]), ok and feats['chain'] >= 2)
+      if ok:
+        ctx.count('flag_graph_ok')
+      else:
+        ctx.violation(None, 'flag expansion of %s: expected %r, observed %s' % (pred, want, out.brief()),
+                      {'flag_graph': i, 'program': text, 'flags': user, 'predicate': pred, 'expected': want, 'observed': out.brief()})
+
+
 def finalize(agg, tier):
   out = []
   c = agg['counters']
-  for k in ('strings', 'sqlite_roundtrips', 'sqlite_ok', 'dialect_literals', 'dialect_ok', 'flag_cases', 'flag_ok', 'expansion_passes_observed',
+  for k in ('strings', 'sqlite_roundtrips', 'sqlite_ok', 'dialect_literals', 'dialect_ok', 'flag_cases', 'flag_ok', 'flag_graph_cases', 'flag_graph_ok',
+            'flag_graph_chain_ge3', 'flag_graph_with_unused', 'expansion_passes_observed',
             'StrLiteral_calls'):
     if not c.get(k):
       out.append('mandatory counter %s is zero' % k)
@@ -357,6 +442,10 @@ def replay(w):
   m = pipeline.mods()
   watch = install_loopwatch(m)
   watch['bound'] = 1 << 22
+  if 'flag_graph' in w:
+    out = pipeline.run(w['program'], w['predicate'], user_flags=w.get('flags'))
+    bad = not (out.kind == 'rows' and out.rows == [[w['expected']]])
+    return bad, 'program:\n%s\nflags: %r\nexpected: %r\nobserved: %s' % (w['program'], w.get('flags'), w['expected'], out.brief())
   if 'flag_case' in w or 'position' in w:
     out = pipeline.run(w['program'], 'T', user_flags=w.get('flags'))
     return True, 'program:\n%s\nflags: %r\nobserved: %s' % (w['program'], w.get('flags'), out.brief())
